@@ -1302,6 +1302,10 @@ void DecodeIntelDB(Word Flags) {
         LayoutCtx.LoHiMap   = (Flags & eIntPseudoFlag_BigEndian) ? 1 : 0;
         LayoutCtx.Replicate = Replicate8_To_16;
         break;
+    default:
+        /* no byte layout for this segment's granularity (e.g. 32-bit code words) */
+        WrError(ErrNum_NotInThisSegment);
+        return;
     }
     if (*LabPart.str.p_str) {
         SetSymbolOrStructElemSize(&LabPart, eSymbolSize8Bit);
